@@ -138,7 +138,7 @@ def judge(pid, scenarios, owned, nontrivial, tlc_mod, cfg=None, module='FBTrace.
                 break
         if hit:
             out.known.append((hit, t['id']))
-        elif clause in owned:
+        elif clause in owned or (set(v.get('also', [])) & owned):
             out.violations.append((sc, t, v))
         else:
             out.others.append({'scenario': t['id'], 'clause': clause, 'at': v['at']})
